@@ -82,6 +82,10 @@ NiShape* toStripsSameTriangles(NifFile& nif, NiShape* shape, Rng& rng);
 // of every SSE partition (Has Faces = 0), as files written by other tools have it.  Returns the number of partitions changed; the model has to
 // be saved and loaded again to obtain the state a reader of such a file is in.
 int dropPartitionFaces(NifFile& nif);
+// Rotates the corners of the triangles stored in mapped-index partitions (OB/FO3/SK) by a random amount each: the same oriented
+// triangles, but not in the smallest-index-first order the library's own rebuild writes (game assets and other exporters do not
+// normalise). Cached true triangles / labels are dropped. Returns the number of partitions changed.
+int rotatePartitionTriangles(NifFile& nif, Rng& rng);
 // Stores the faces of every mapped-index partition (OB/FO3/SK) as triangle strips instead of a triangle list, the way older exporters
 // write them: per triangle a strip with or without a degenerate lead-in/tail, or two triangles stitched by degenerates. The counter
 // follows the file convention (sum of strip length - 2, degenerates included). Same triangles, other encoding. Returns partitions changed.
